@@ -28,6 +28,7 @@ _PROC_RUN = multiprocessing.context.Process.run
 _pty = None
 _warm = False
 CURRENT_KERNEL = [None]
+_IMPORT_LOCKS = []   # simulated locks created by the current import (memo locks in closures)
 
 
 def current_kernel():
@@ -104,7 +105,11 @@ def fresh_import(kernel=None, with_widget=False, sim_locks=True):
 
     def rlock_factory():
         counter[0] += 1
-        return SimRLock(current_kernel, "rlock%d" % counter[0])
+        lk = SimRLock(current_kernel, "rlock%d" % counter[0])
+        _IMPORT_LOCKS.append(lk)
+        return lk
+
+    del _IMPORT_LOCKS[:]
 
     old_stdout = sys.__stdout__
     sys.__stdout__ = _FakeStd(_pty[1])
@@ -214,6 +219,12 @@ def reset_module_state(boot):
     what a fresh import leaves (used only by properties that do not depend on it)."""
     u = boot.utils
     ti = boot.term_image
+    # locks captured in closures (`cached`, `terminal_size_cached`) survive in a reused import:
+    # a world that was torn down while a task held one must not leak that into the next
+    for lk in _IMPORT_LOCKS:
+        lk.owner = None
+        lk.count = 0
+        lk.waiters = 0
     u._query_timeout = 0.1
     u._queries_enabled = True
     u._swap_win_size = False
